@@ -85,7 +85,10 @@ Inductive obs :=
 | OVal (v : value)
 | OErr
 | ONt (r : option (string * value))
-| OBad.                        (* an observation the harness could not canonicalise *)
+| OBad                         (* an observation the harness could not canonicalise *)
+| OAny.                        (* masked: access to a tunable that is not bound (instance not set
+                                  up yet, or a private name setup_tunables skips) -- the property
+                                  says nothing about it *)
 
 Definition ev_match (e : event) (o : obs) : bool :=
   match e, o with
@@ -95,6 +98,7 @@ Definition ev_match (e : event) (o : obs) : bool :=
   | EvErr, OErr => true
   | EvNt None, ONt None => true
   | EvNt (Some (ty, v)), ONt (Some (s, v')) => String.eqb (type_string ty) s && value_eqb v v'
+  | EvErr, OAny => true        (* the model agrees that nothing is bound there *)
   | _, _ => false
   end.
 
